@@ -97,46 +97,98 @@ def coq_adapter(ad, ids):
     raise RuntimeError('gen_c01: adapter %r' % (ad,))
 
 
+def _number_record(items):
+    m = 0
+    for b in items:
+        if b['t'] in ('field', 'str'):
+            m += 1; b['id'] = m
+
+
 def assign_ids(desc):
-    """number the fields / parts 1.. in wire order (records of a counted part have their own numbering)"""
+    """number the fields / parts 1.. in wire order (the records of counted / conditional / tagged parts have their own numbering)"""
     ids, n = {}, 0
     for it in desc['items']:
-        if it['t'] in ('field', 'counted', 'bytes'):
+        if it['t'] in ('field', 'counted', 'bytes', 'switch', 'tagged', 'str'):
             n += 1
             it['id'] = n
             ids[it['name']] = n
-            if it['t'] == 'counted':
-                m = 0
-                for b in it['body']:
-                    if b['t'] == 'field':
-                        m += 1; b['id'] = m
+        if it['t'] == 'counted':
+            _number_record(it['body'])
+        if it['t'] == 'switch':
+            for c in it['cases'].values():
+                _number_record(c['items'])
+        if it['t'] == 'tagged':
+            for c in it['cases'].values():
+                _number_record(c['items'])
+            if it['sub']:
+                _number_record(it['sub']['hdr'])
+                for c in it['sub']['cases'].values():
+                    _number_record(c['items'])
     return ids
 
 
 def coq_item(it, ids):
     if it['t'] == 'pad':
         return 'IPad [%s]' % '; '.join(str(b) for b in it['bytes'])
+    if it['t'] == 'str':
+        return 'IStr %d %d' % (it['id'], it['n'])
     return 'IField %d %s %s' % (it['id'], it['kind'], coq_adapter(it['adapter'], ids))
+
+
+def coq_items(items, ids):
+    return '[%s]' % '; '.join(coq_item(b, ids) for b in items)
+
+
+def coq_cases(cases, ids):
+    return '[%s]' % '; '.join('(%d, %s)' % (int(v), coq_items(c['items'], ids)) for v, c in sorted(cases.items(), key=lambda kv: int(kv[0])))
 
 
 def coq_desc(desc):
     ids = assign_ids(desc)
     out = []
     for it in desc['items']:
-        if it['t'] in ('field', 'pad'):
+        if it['t'] in ('field', 'pad', 'str'):
             c = 'WItem (%s)' % coq_item(it, ids)
             if it['t'] == 'field':
                 c += '   (* %s *)' % (it['paths'][0] if it.get('paths') else it['name'])
         elif it['t'] == 'counted':
             cnt = ids[it['cnt']]
-            c = 'WCounted %d %d [%s]   (* %s *)' % (it['id'], cnt, '; '.join(coq_item(b, ids) for b in it['body']), it['path'])
+            c = 'WCounted %d %d %s   (* %s *)' % (it['id'], cnt, coq_items(it['body'], ids), it['path'])
             it['cnt_id'] = cnt
-        else:
+        elif it['t'] == 'bytes':
             l = it['len']
             ln = 'LGreedy' if l[0] == 'greedy' else ('(LFixed %d)' % l[1] if l[0] == 'fixed' else '(LCount %d)' % ids[l[1]])
             if l[0] == 'count':
                 it['cnt_id'] = ids[l[1]]
-            c = 'WBytes %d %s   (* %s *)' % (it['id'], ln, it['path'])
+            m = it.get('mode', ['raw'])
+            if m[0] == 'raw':
+                md = 'BRaw'
+            elif m[0] == 'str':
+                md = 'BStr'
+            elif m[0] == 'rewrite':
+                it['rewrite_tag_id'] = ids[m[1]]
+                md = '(BRewrite %d [%s] [%s] [%s])' % (ids[m[1]], '; '.join(str(v) for v in m[2]), '; '.join(str(v) for v in m[3]), '; '.join(str(v) for v in m[4]))
+            else:
+                raise RuntimeError('gen_c01: byte mode %r' % (m,))
+            c = 'WBytes %d %s %s   (* %s *)' % (it['id'], ln, md, it['path'])
+        elif it['t'] == 'switch':
+            it['tag_id'] = ids[it['tag']]
+            c = 'WSwitch %d %d %s   (* %s *)' % (it['id'], ids[it['tag']], coq_cases(it['cases'], ids), it['name'])
+        elif it['t'] == 'tagged':
+            it['tag_id'], it['len_id'] = ids[it['tag']], ids[it['len']]
+            skip = 'None'
+            if it['skip']:
+                it['skip_id'] = ids[it['skip'][0]]
+                skip = 'Some (%d%%N, %d)' % (ids[it['skip'][0]], it['skip'][1])
+            sub = 'None'
+            if it['sub']:
+                sidf = next(h for h in it['sub']['hdr'] if h['t'] == 'field' and h['name'] == it['sub']['sid'])
+                it['sub']['sid_id'] = sidf['id']
+                sub = 'Some (%d, %s, %d%%N, %s)' % (it['sub']['tag_value'], coq_items(it['sub']['hdr'], ids), sidf['id'], coq_cases(it['sub']['cases'], ids))
+            c = ('WTagged %d {| tg_tag := %d; tg_len := %d; tg_skip := %s;\n        tg_cases := %s;\n        tg_sub := %s;\n        tg_opaque := %s |}   (* %s *)'
+                 % (it['id'], ids[it['tag']], ids[it['len']], skip, coq_cases(it['cases'], ids), sub, 'true' if it['opaque'] else 'false', it['name']))
+        else:
+            raise RuntimeError('gen_c01: item type %r' % it['t'])
         out.append(c)
     # separators must precede the trailing comment
     lines = []
